@@ -187,4 +187,7 @@ let init () =
        | M.Err e -> ["err" ^ C.hex_of_n e; ha; hb; "-"]
        | M.Panic p -> ["panic" ^ C.hex_of_n p; ha; hb; "-"])
     | _ -> failwith "c01.ot_adv: arity");
+  Proto.register "c01.has" (fun args -> match args with
+    | [id] -> [if Hashtbl.mem states id || Hashtbl.mem ot_states id then "1" else "0"]
+    | _ -> failwith "c01.has: arity");
   Proto.register "c01.drop" (fun args -> List.iter (fun id -> Hashtbl.remove states id; Hashtbl.remove ot_states id) args; ["ok"])
